@@ -132,6 +132,7 @@ var LeafTypes = map[string]TypeDef{
 	"bits":  {Kind: "bits"}, "bin": {Kind: "binary"},
 	"lr":  {Kind: "leafref", Target: &TypeDef{Kind: "uint16"}},
 	"pct": {Kind: "uint8"},
+	"iid": {Kind: "instance-identifier"},
 	// leaf-lists (element types)
 	"ll-str": {Kind: "string"}, "ll-u64": {Kind: "uint64"}, "ll-i8": {Kind: "int8"}, "ll-d2": {Kind: "decimal64", FD: 2},
 	"ll-en": {Kind: "enumeration", Enum: []string{"one", "two"}}, "ll-idref": {Kind: "identityref", Enum: idents}, "ll-bool": {Kind: "boolean"},
